@@ -262,27 +262,32 @@ func c10Listeners(p *ana.Prog, r *ana.Result) {
 		}
 		gate := ana.ErrNilGate(p, fn, ana.Q("net/nts.ProcessRequest"))
 		// serverCookie alloc: destination of Decrypt result #0
-		var cookieAlloc *ssa.Alloc
+		// (a local variable or a field of one, named by its access path)
+		cookiePath := ""
 		if e := extractOf(decs[0].(*ssa.Call), 0); e != nil {
 			for _, ref := range ana.Referrers(e) {
 				if st, ok := ref.(*ssa.Store); ok {
-					cookieAlloc, _ = st.Addr.(*ssa.Alloc)
+					if _, isLocal := rootAlloc(st.Addr).(*ssa.Alloc); isLocal {
+						cookiePath = strings.TrimPrefix(ana.AccessPath(st.Addr), "&")
+					}
 				}
 			}
 		}
-		if cookieAlloc == nil {
+		if cookiePath == "" {
 			r.Violate("C10.gate", fname, "cookie-variable", posOf(p, decs[0]), "UNDECIDED: decrypted cookie is not stored in a local variable")
 			continue
 		}
 		// the decrypted cookie may be copied into further locals (v2 = v1); a local counts when every
 		// store to it is such a copy or the zero value
-		isCookie := map[ssa.Value]bool{cookieAlloc: true}
+		cookiePaths := map[string]bool{cookiePath: true}
+		pathOf := func(v ssa.Value) string { return strings.TrimPrefix(ana.AccessPath(v), "&") }
+		isCookieV := func(v ssa.Value) bool { return v != nil && cookiePaths[pathOf(v)] }
 		for changed := true; changed; {
 			changed = false
 			for _, b := range fn.Blocks {
 				for _, in := range b.Instrs {
 					al, ok := in.(*ssa.Alloc)
-					if !ok || isCookie[al] || typeNameOf(al.Type()) != "ServerCookie" {
+					if !ok || isCookieV(al) || typeNameOf(al.Type()) != "ServerCookie" {
 						continue
 					}
 					okAll, n := true, 0
@@ -294,22 +299,21 @@ func c10Listeners(p *ana.Prog, r *ana.Result) {
 						if _, isC := st.Val.(*ssa.Const); isC {
 							continue
 						}
-						if ld, ok := st.Val.(*ssa.UnOp); ok && ld.Op == token.MUL && isCookie[ld.X] {
+						if ld, ok := st.Val.(*ssa.UnOp); ok && ld.Op == token.MUL && isCookieV(ld.X) {
 							n++
 							continue
 						}
 						okAll = false
 					}
 					if okAll && n > 0 {
-						isCookie[al] = true
+						cookiePaths[pathOf(al)] = true
 						changed = true
 					}
 				}
 			}
 		}
 		// ProcessRequest key = serverCookie.C2S
-		kch, kroot := fieldChain(prs[0].Common().Args[1])
-		if kch == "C2S" && isCookie[kroot] {
+		if kp := pathOf(prs[0].Common().Args[1]); strings.HasSuffix(kp, ".C2S") && cookiePaths[strings.TrimSuffix(kp, ".C2S")] {
 			r.Ok("C10.keys", fname, "request-verified-under-cookie-C2S", posOf(p, prs[0]), "the request is verified under the C2S key of the cookie decrypted from this request")
 		} else {
 			r.Violate("C10.keys", fname, "request-verified-under-cookie-C2S", posOf(p, prs[0]), "the request is not verified under the decrypted cookie's client-to-server key")
@@ -344,7 +348,7 @@ func c10Listeners(p *ana.Prog, r *ana.Result) {
 		}
 		isS2CRead := func(in ssa.Instruction) bool {
 			fa, ok := in.(*ssa.FieldAddr)
-			return ok && isCookie[fa.X] && fieldNameOf(fa.X.Type(), fa.Field) == "S2C"
+			return ok && isCookieV(fa.X) && fieldNameOf(fa.X.Type(), fa.Field) == "S2C"
 		}
 		tgts := []tgt{
 			{"NewResponsePacket", ana.IsCallTo(ana.Q("net/nts.NewResponsePacket")), 1},
@@ -370,16 +374,18 @@ func c10Listeners(p *ana.Prog, r *ana.Result) {
 		}
 		// NewResponsePacket(cookies, serverCookie.S2C, ntsreq.UniqueID.ID); EncryptWithNonce on serverCookie
 		for _, c := range ana.CallsIn(fn, ana.Q("net/nts.NewResponsePacket")) {
-			ch, root := fieldChain(c.Common().Args[1])
+			sp := pathOf(c.Common().Args[1])
 			uid := ana.AccessPath(c.Common().Args[2])
-			if ch == "S2C" && isCookie[root] && uid == "ntsreq.UniqueID.ID" {
+			// the unique identifier of the Packet that ProcessRequest verified
+			reqPath := strings.TrimPrefix(pathOf(prs[0].Common().Args[2]), "&")
+			if strings.HasSuffix(sp, ".S2C") && cookiePaths[strings.TrimSuffix(sp, ".S2C")] && uid == reqPath+".UniqueID.ID" {
 				r.Ok("C10.keys", fname, "response-sealed-under-cookie-S2C", posOf(p, c), "NewResponsePacket(cookies, serverCookie.S2C, ntsreq.UniqueID.ID)")
 			} else {
 				r.Violate("C10.keys", fname, "response-sealed-under-cookie-S2C", posOf(p, c), "the response is not sealed under the decrypted cookie's server-to-client key with the request's unique identifier")
 			}
 		}
 		for _, c := range ana.CallsIn(fn, ana.Q("(*net/ntske.ServerCookie).EncryptWithNonce")) {
-			if isCookie[c.Common().Args[0]] {
+			if isCookieV(c.Common().Args[0]) {
 				r.Ok("C10.gate", fname, "new-cookies-carry-session-keys", posOf(p, c), "new cookies re-seal the decrypted session cookie")
 			} else {
 				r.Violate("C10.gate", fname, "new-cookies-carry-session-keys", posOf(p, c), "new cookies are not made from the session cookie of this request")
